@@ -3,12 +3,14 @@ use crate::plan::*;
 use crate::sim::Ctx;
 pub mod demux;
 pub mod dtls;
+pub mod icestun;
 pub mod latch;
 pub mod pc_close;
 pub mod pc_connect;
 pub mod srtpgate;
 pub mod gen_sctp;
 pub mod sctp;
+pub mod signaling;
 
 pub async fn dispatch(ctx: &Ctx) {
     match ctx.plan.scenario.as_str() {
@@ -16,6 +18,8 @@ pub async fn dispatch(ctx: &Ctx) {
         "dtls_layer" => dtls::run(ctx).await,
         "demux" => demux::run(ctx).await,
         "latch" => latch::run(ctx).await,
+        "signaling" => signaling::run(ctx).await,
+        "ice_stun" => icestun::run(ctx).await,
         "pc_connect" => pc_connect::run(ctx).await,
         "pc_close" => pc_close::run(ctx).await,
         "srtp_gate" => srtpgate::run(ctx).await,
@@ -36,6 +40,8 @@ pub fn generate(prop: &str, seed: u64, idx: u64, tier: Tier) -> Option<Plan> {
         "C11" | "C02" | "C03" => Some(dtls::generate(prop, seed, idx, tier)),
         "C19" => Some(demux::generate(prop, seed, idx, tier)),
         "C18" => Some(latch::generate(prop, seed, idx, tier)),
+        "C09" => Some(signaling::generate(prop, seed, idx, tier)),
+        "C06" => Some(icestun::generate(prop, seed, idx, tier)),
         "C10" => Some(pc_connect::generate(prop, seed, idx, tier)),
         "C17" => Some(pc_close::generate(prop, seed, idx, tier)),
         "C14" => Some(srtpgate::generate(prop, seed, idx, tier)),
@@ -49,6 +55,8 @@ pub fn budget(prop: &str, tier: Tier) -> u64 {
         ("C11" | "C02" | "C03", t) => dtls::budget(prop, t),
         ("C19", t) => demux::budget(prop, t),
         ("C18", t) => latch::budget(prop, t),
+        ("C09", t) => signaling::budget(prop, t),
+        ("C06", t) => icestun::budget(prop, t),
         ("C10", t) => pc_connect::budget(prop, t),
         ("C17", t) => pc_close::budget(prop, t),
         ("C14", t) => srtpgate::budget(prop, t),
